@@ -8,7 +8,7 @@ wt="/tmp/rw-seedrun-$$"
 git -C /repo worktree add -q --detach "$wt" HEAD || exit 2
 trap 'git -C /repo worktree remove --force "$wt" >/dev/null 2>&1; rm -rf /verif/harness/target-$(python3 -c "import hashlib;print(hashlib.sha1(b\"$wt\").hexdigest()[:8])")' EXIT
 if ! git -C "$wt" apply "$d/patch.diff"; then echo "patch does not apply"; exit 1; fi
-cd /verif
+cd "$(dirname "$0")/.."
 for pid in "$@"; do
   EASYML_REPO="$wt" python3 verif.py check "$pid" --tier "${TIER:-quick}" > /tmp/seedrun-$$.log 2>&1
   rc=$?
